@@ -42,6 +42,9 @@ impl<'a> State<'a> {
     /// or `None` when it already is, i.e. when `node` references itself,
     /// directly or through any chain of other elements.
     pub(crate) fn enter_def(&self, node: SvgNode<'a, 'a>) -> Option<Self> {
+        #[cfg(resvg_verif)]
+        crate::parser::verif_svgtree::log_enter_def(node, &self.parent_defs);
+
         if self.parent_defs.contains(&node) {
             log::warn!(
                 "Recursive '{}' detected. It will be skipped.",
